@@ -29,6 +29,9 @@ type ReplayInfo struct {
 	Results  []string
 	ResTypes []types.Type
 	Specs    map[string]*SpecFunc
+	PoolPath string // import path of the buffer pool package when the package under test uses it
+	EntryScript string            // SMT script of the function-entry context (type invariants + requires)
+	Imports     map[string]string // package name -> import path, as seen from the package under test
 }
 
 type replayParam struct {
@@ -49,6 +52,13 @@ func (fr *Frame) buildReplayInfo(fc *FuncContract) *ReplayInfo {
 	}
 	if p, ok := fr.en.byPath[fc.PkgPath]; ok && len(p.GoFiles) > 0 {
 		ri.PkgDir = filepath.Dir(p.GoFiles[0])
+		ri.Imports = map[string]string{}
+		for ip, q := range p.Imports {
+			if strings.HasSuffix(ip, "/internal/pool") {
+				ri.PoolPath = ip
+			}
+			ri.Imports[q.Name] = ip
+		}
 	}
 	if recv := fn.Signature.Recv(); recv != nil {
 		_, ri.RecvPtr = recv.Type().(*types.Pointer)
@@ -141,7 +151,7 @@ func getValues(file, solver string, terms []string, cfg SolverCfg) map[string]st
 		cancel()
 		s := buf.String()
 		i := strings.Index(s, "\n")
-		if i < 0 || strings.TrimSpace(s[:i]) != "sat" {
+		if i < 0 || (strings.TrimSpace(s[:i]) != "sat" && strings.TrimSpace(s[:i]) != "unknown") {
 			return out
 		}
 		tree := parseSx(strings.TrimSpace(s[i+1:]))
@@ -204,7 +214,23 @@ func tryReplay(rf *replayFile, o *Obligation, en *Engine) {
 		}
 	}
 	smt := filepath.Join(verifDir, "work", rf.Property, sanitizeFile(o.Name)+".smt2")
-	vals := getValues(smt, o.Solver, terms, SolverCfg{Timeout: 20 * time.Second})
+	var vals map[string]string
+	if o.Status == "failed" {
+		vals = getValues(smt, o.Solver, terms, SolverCfg{Timeout: 20 * time.Second})
+	} else {
+		// no solver produced a model (quantified goal): use the candidate model of a solver that
+		// answered "unknown"; whatever it is, it only counts if the real code fails on it
+		// no solver produced a model (quantified goal): take any input that satisfies the
+		// function's preconditions; it only counts if the real code fails on it
+		efile := strings.TrimSuffix(smt, ".smt2") + ".entry.smt2"
+		os.WriteFile(efile, []byte(ri.EntryScript), 0o644)
+		for _, sv := range []string{"z3new", "z3", "cvc5"} {
+			vals = getValues(efile, sv, terms, SolverCfg{Timeout: 8 * time.Second})
+			if len(vals) > 0 {
+				break
+			}
+		}
+	}
 	if len(vals) == 0 {
 		rf.ReplayNote = "could not obtain model values from " + o.Solver
 		return
@@ -255,6 +281,14 @@ func genReplayTest(ri *ReplayInfo, o *Obligation, vals map[string]string) (strin
 		return p.Name()
 	}
 	imports := map[string]bool{"testing": true}
+	qual0 := qual
+	qual = func(p *types.Package) string {
+		n := qual0(p)
+		if n != "" {
+			imports[p.Path()] = true
+		}
+		return n
+	}
 	var setup []string
 	var args []string
 	recvExpr := ""
@@ -358,9 +392,16 @@ func genReplayTest(ri *ReplayInfo, o *Obligation, vals map[string]string) (strin
 	for im := range imports {
 		fmt.Fprintf(&sb, "\t%q\n", im)
 	}
+	if ri.PoolPath != "" {
+		fmt.Fprintf(&sb, "\tgovcpool %q\n", ri.PoolPath)
+	}
 	sb.WriteString(")\n\n")
 	fmt.Fprintf(&sb, "// replay of obligation %s\nfunc TestGovcReplay(t *testing.T) {\n", o.Name)
 	sb.WriteString("\tdefer func() {\n\t\tif r := recover(); r != nil {\n\t\t\tt.Fatalf(\"GOVC-REPLAY PANIC: %v\", r)\n\t\t}\n\t}()\n")
+	if ri.PoolPath != "" {
+		// recycled buffers are not zeroed: reproduce "arbitrary previous content" by poisoning the pool
+		sb.WriteString("\tfor _, n := range []int{1, 2, 4, 8, 16, 32, 64, 128, 256, 320, 384, 448, 512, 1024} {\n\t\tpb := govcpool.GetBuf(n)\n\t\tpb = pb[:cap(pb)]\n\t\tfor i := range pb {\n\t\t\tpb[i] = 0xEE\n\t\t}\n\t\tgovcpool.ReleaseBuf(pb)\n\t}\n")
+	}
 	for _, s := range setup {
 		sb.WriteString("\t" + s + "\n")
 	}
@@ -456,6 +497,11 @@ func (tr *goTranslator) expr(e Expr) (string, error) {
 		}
 		return fmt.Sprintf("(%s %s %s)", a, x.Op, b), nil
 	case *ESel:
+		if id, ok := x.X.(*EIdent); ok && !tr.paramNames[id.Name] {
+			if ip, ok := tr.ri.Imports[id.Name]; ok {
+				tr.imports[ip] = true
+			}
+		}
 		a, err := tr.expr(x.X)
 		if err != nil {
 			return "", err
